@@ -223,8 +223,17 @@ func loadFindings() []Finding {
 // targets of the library. The child runs the same tier, writes its violations to a file instead of
 // evidence, and the parent imports them.
 func (r *Run) arch386() {
+	if r.Worker != "" || r.Replay != "" || os.Getenv("VERIF_IS_386") != "" {
+		return
+	}
+	// build-tag variants found by ./check in the library's //go:build lines (none on the pinned tree)
+	for _, v := range strings.Fields(os.Getenv("VERIF_VARIANT_BINS")) {
+		if i := strings.Index(v, "="); i > 0 {
+			r.variant(v[i+1:], "build tag "+v[:i], "variant_"+v[:i])
+		}
+	}
 	bin := os.Getenv("VERIF_386_BIN")
-	if bin == "" || r.Worker != "" || r.Replay != "" || os.Getenv("VERIF_IS_386") != "" {
+	if bin == "" {
 		return
 	}
 	switch when := strings.TrimSpace(os.Getenv("VERIF_386_WHEN")); {
@@ -235,7 +244,13 @@ func (r *Run) arch386() {
 		r.Assume("GOARCH=386 pass: quick tier only (the thorough tier's bookkeeping exceeds a 32-bit address space)")
 		return
 	}
-	out := filepath.Join(os.Getenv("VERIF_WORK"), "arch386."+r.ID+".json")
+	r.variant(bin, "GOARCH=386", "arch_386")
+	r.Assume("the whole enumeration of this tier is repeated on a 32-bit (GOARCH=386) build of library and harness; its cases are not added to evaluations / distinct_nontrivial")
+}
+
+// variant runs another build of this harness (same tier) as a child and imports its findings.
+func (r *Run) variant(bin, what, key string) {
+	out := filepath.Join(os.Getenv("VERIF_WORK"), key+"."+r.ID+".json")
 	os.Remove(out)
 	cmd := exec.Command(bin, "--tier", r.Tier)
 	cmd.Env = append(os.Environ(), "VERIF_IS_386=1", "VERIF_386_OUT="+out)
@@ -254,21 +269,20 @@ func (r *Run) arch386() {
 		if len(tail) > 1500 {
 			tail = tail[len(tail)-1500:]
 		}
-		r.Machinery("the GOARCH=386 run of this harness failed (%v): %s", err, tail)
+		r.Machinery("the %s run of this harness failed (%v): %s", what, err, tail)
 		return
 	}
 	for i := range res.Violations {
 		if res.Violations[i].What != "" {
-			res.Violations[i].What = "[GOARCH=386 build of the library] " + res.Violations[i].What
+			res.Violations[i].What = "[" + what + " build of the library] " + res.Violations[i].What
 		}
 	}
 	r.Import(res.Violations)
 	for _, m := range res.Machinery {
-		r.Machinery("GOARCH=386 run: %s", m)
+		r.Machinery("%s run: %s", what, m)
 	}
-	r.Set("arch_386_evaluations", res.Evaluations)
-	r.Set("arch_386_wall_s", time.Since(start).Seconds())
-	r.Assume("the whole enumeration of this tier is repeated on a 32-bit (GOARCH=386) build of library and harness; its cases are not added to evaluations / distinct_nontrivial")
+	r.Set(key+"_evaluations", res.Evaluations)
+	r.Set(key+"_wall_s", time.Since(start).Seconds())
 }
 
 // Finish writes the evidence file, prints KNOWN-FINDING / VIOLATION lines and exits.
